@@ -209,7 +209,33 @@ def gen_scenario(rng):
         ops.append("close")
     elif rng.random() < 0.5:
         ops.append("end")
-    return "scn %s %d %d %d %s" % ("udp" if udp else "tcp", 1 if bw else 0, lim, ep, " ".join(ops)), g.failing
+    tr = "udp" if udp else "tcp"
+    if udp and not allow_obs and rng.random() < 0.25:      # (the model's prediction of an observation's fate assumes its request goes out at once)
+        tr = "udp@%d" % rng.choice([1, 1, 2])        # NSTART 1 (the default of the library) or 2: confirmable requests queue for a slot
+    return "scn %s %d %d %d %s" % (tr, 1 if bw else 0, lim, ep, " ".join(ops)), g.failing
+
+
+def nstart_family(rng=None):
+    """NSTART exhausted by an unanswered confirmable request; further confirmable requests / one-way writes queue for the slot and
+    end while they are queued (deadline, cancellation, close) or get the slot later.  Nothing of a request that ended while it
+    was queued may stay in the message-ID table (bounded by the live calls at every idle point, empty at the end)."""
+    out = []
+    for n, lim in ([(1, 0), (1, 3), (2, 0)] if rng is None else [(rng.choice([1, 2]), rng.choice([0, 0, 3]))]):
+        dl = 5 if rng is None else rng.choice([2, 5, 9])
+        first = " ".join("do:%d:%d:%s:con:0:0" % (i, i, "abcdefg"[i]) for i in range(1, n + 1))
+        k = n + 1
+        out += [
+            "scn udp@%d 0 %d 0 %s do:%d:%d:x:con:0:%d sleep:%d settle tick resp:1:pig:69:4:- settle" % (n, lim, first, k, k, dl, dl * 1000 + 500),
+            "scn udp@%d 0 %d 0 %s do:%d:%d:x:con:0:0 sleep:1000 cancel:%d settle sleep:3000 tick resp:1:pig:69:4:- settle" % (n, lim, first, k, k, k),
+            "scn udp@%d 0 %d 0 %s do:%d:%d:x:con:0:0 do:%d:%d:y:con:0:%d cancel:%d sleep:%d tick rst:1 settle"
+            % (n, lim, first, k, k, k + 1, k + 1, dl, k, dl * 1000 + 500),
+            "scn udp@%d 1 %d 0 %s do:%d:%d:x:con:40:%d sleep:%d settle cancel:1 settle" % (n, lim, first, k, k, dl, dl * 1000 + 500),
+            "scn udp@%d 0 %d 0 %s write:%d:con sleep:1000 cancel:%d settle sleep:3000 tick ack:1 settle" % (n, lim, first, k, k),
+            "scn udp@%d 0 %d 0 %s do:%d:%d:x:con:0:%d resp:1:pig:69:4:- resp:%d:pig:69:4:- settle" % (n, lim, first, k, k, dl, k),
+            "scn udp@%d 0 %d 0 %s do:%d:%d:x:con:0:0 close" % (n, lim, first, k, k),
+        ]
+    return out
+
 
 
 FIXED = [
@@ -254,7 +280,9 @@ def corpus_lines():
 
 def gen_lines(ctx):
     rng = random.Random(ctx.seed * 104729 + 13)
-    L = [(l, 1) for l in corpus_lines() + FIXED]
+    L = [(l, 1) for l in corpus_lines() + FIXED + nstart_family()]
+    for _ in range(30 if ctx.tier == "thorough" else 4):
+        L += [(l, 1) for l in nstart_family(rng)]
     for _ in range(8000 if ctx.tier == "thorough" else 1200):
         L.append(gen_scenario(rng))
     return L
